@@ -37,7 +37,16 @@ from harness.common import paths
 
 PID = "C03"
 LEVEL = "proof"
+# C03b: compiled ghost-cell setter (sequential loops, chain) = interpreted setter, as two model definitions proved equal;
+# C18b: matrix route = stencil route on the array the setter produces
+EXTRA_PROP_FILES = ["C03b", "C18b"]
 REQUIRED_THEOREMS = [
+    "chain_eq_foldl", "setGhostLoop_apply", "points_sound", "points_complete", "compiledLocal_eq_setGhost",
+    "compiled_setter_eq_interpreted", "compiled_setter_eq_interpreted_scalar", "readLog_compiledSetterLog",
+    "compiledSetterLog_eq_interpreted",
+    "cart1_matrix_eq_laplace_after_setter", "polar_matrix_eq_laplace_after_setter", "polar_disk_matrix_eq_laplace_after_setter",
+    "sph_matrix_eq_laplace_after_setter", "sph_ball_matrix_eq_laplace_after_setter", "cart2_matrix_eq_laplace_after_setter",
+    "cyl_matrix_eq_laplace_after_setter", "cart3_matrix_eq_laplace_after_setter",
     "parallel_schedule_independent", "kernel_schedule_independent", "chunked_schedule_independent",
     "runWrites_kernel_value", "out_route_eq", "ghost_route_order_irrelevant",
     "bernstein_schedule_independent", "runBodies_kernel", "schedule_dependent_if_out_is_read", "schedule_dependent_if_cells_shared",
@@ -57,7 +66,7 @@ ASSUMPTIONS = [
 ]
 TRUSTED_EXTRA = ["extractor E2 (Python ast walk over every nb.prange loop under pde/) establishes the kernel-shape hypothesis of the "
                  "schedule theorem statically; the schedule leg re-establishes it dynamically on logged element accesses"]
-MIN_LEGS = {"routes": 100, "threads": 9, "schedule": 15, "complex": 20}
+MIN_LEGS = {"routes": 100, "threads": 9, "schedule": 15, "complex": 20, "setter": 60}
 
 CLS = c01.DIM and {"UnitGrid": "cart", "CartesianGrid": "cart", "PolarSymGrid": "polar", "SphericalSymGrid": "sph", "CylindricalSymGrid": "cyl"}
 OPS_BY_RANK = {0: ["laplace", "gradient", "gradient_squared"], 1: ["divergence", "vector_gradient", "vector_laplace"], 2: ["tensor_divergence"]}
@@ -802,7 +811,12 @@ def run(ctx):
             order = sorted(range(len(ws)), key=lambda k: ws[k][0])
             sched_reqs[(fam, name)] = batch.add("c03.writes", {"size": rec["size"], "cells": [w[0] for w in ws],
                                                                "vals": [q(w[1]) for w in ws], "order": order})
+    # ---- setter leg: requests (model of the *compiled* setter: sequential loops on the live array, chain) -------------
+    srng = ctx.sub_rng("setter")
+    scases = [c02.gen_case(srng, lambda *a, **k: None, extended=True) for _ in range(ctx.budget(140, 1500))]
+    sreqs = [batch.add("c03.seqghost", c02.model_request(c)) for c in scases]
     answers = batch.run()
+    setter_leg(ctx, srng, scases, sreqs, answers)
     for fam, rr in zip(FAMILIES, res_sched):
         if isinstance(rr, str):
             continue
@@ -913,6 +927,72 @@ def run(ctx):
 
 
 # ------------------------------------------------------------------------------------------
+# setter leg: compiled ghost-cell setter vs its own model (Model/SetterSeq.lean) vs the interpreted setter
+def judge_setter(case, rs, model, div0):
+    """-> (outcome for the histogram, broken-tie note or None, monitor failure (observed, what) or None)"""
+    if isinstance(rs, str) or "error" in rs:
+        return "specification rejected (judged by C02)", None, None
+    interp, comp = rs.get("interpreted"), rs.get("numba")
+    if isinstance(interp, str) or isinstance(comp, str) or interp is None or comp is None:
+        return "a setter raised (error behaviour is judged by C02)", None, None
+    scale = max([1.0] + [abs(float(x)) for x in np.asarray(case["data"], dtype=float).ravel() if np.isfinite(x)])
+    tie = None
+    if model is not None:
+        k = c02.compare_arrays(model, comp, scale, div0)
+        if k is not None:
+            tie = f"entry {k}: model of the compiled setter {float(model[k]) if k >= 0 else 'shape'} != real compiled setter " \
+                  f"{float(np.asarray(comp, dtype=float).ravel()[k]) if k >= 0 else np.asarray(comp).shape}"
+    exp = np.array(interp, dtype=float).copy()
+    flat = exp.reshape(-1)
+    for k in div0:
+        flat[k] = np.nan  # the expression divides by zero there: any non-finite entry
+    fail = None
+    if not c02.agree(comp, exp, scale):
+        a, b = np.asarray(comp, dtype=float).ravel(), np.asarray(interp, dtype=float).ravel()
+        with np.errstate(invalid="ignore"):
+            d = np.abs(a - b) if a.shape == b.shape else np.array([np.inf])
+        i_ = int(np.argmax(np.where(np.isfinite(d), d, np.inf)))
+        fail = ({"index": i_, "compiled": float(a[i_]) if a.shape == b.shape else list(a.shape),
+                 "interpreted": float(b[i_]) if a.shape == b.shape else list(b.shape)},
+                "compiled ghost-cell setter and interpreted set_ghost_cells give different padded arrays")
+    return "compared", tie, fail
+
+
+def setter_leg(ctx, srng, scases, sreqs, answers):
+    res_s = run_many("harness.c02", "real_ghost", [(c, True, False) for c in scases], env={"NUMBA_DISABLE_JIT": "1"}, procs=16)
+    jit_ids = sorted(srng.sample(range(len(scases)), min(ctx.budget(8, 80), len(scases))))
+    res_j = dict(zip(jit_ids, run_many("harness.c02", "real_ghost", [(scases[i], True, False) for i in jit_ids],
+                                       env={"NUMBA_DISABLE_JIT": "0"}, procs=8)))
+    for ci, (c, ri) in enumerate(zip(scases, sreqs)):
+        key = c02.case_key(c)
+        st, val = answers[ri]
+        model, div0 = None, ()
+        if st == "ok":
+            model, div0 = [unq(x) for x in val["a"]], tuple(val["div0"])
+            ctx.hist("setter-stores", str(min(int(val["stores"]), 512).bit_length()))
+        else:
+            ctx.disagree("setter", key, f"model error {val}", None)
+        for mode, rs in (("source", res_s[ci]), ("jit", res_j.get(ci))):
+            if rs is None:
+                continue
+            outcome, tie, fail = judge_setter(c, rs, model, div0)
+            ctx.hist("setter-outcome", f"{mode}: {outcome}")
+            if outcome != "compared":
+                continue
+            ctx.count(dict(key, mode=mode), nontrivial=len(set(key["data"])) > 2, leg="setter")
+            ctx.hist("setter-grid", f"{c['grid']['cls']}/{len(c['grid']['shape'])}d/rank{c['rank']}")
+            ctx.impl_traces += 1
+            ctx.monitor_evals += 1
+            rec = dict(key, mode=mode, packed=c02.pack(c))
+            if tie:
+                ctx.disagree("setter", rec, "BC.compiledSetterLog (sequential loops on the live array, chain)",
+                             "make_ghost_cell_setter of the numba backend", tie)
+            if fail:
+                ctx.monitor_fail("setter", rec, fail[0], "compiled setter = interpreted setter", fail[1],
+                                 key={"route": f"numba-setter({mode})", "symptom": "differs-from-interpreted-setter"})
+
+
+# ------------------------------------------------------------------------------------------
 def replay(ctx, rep):
     """re-run the recorded case of its leg on the real code (same inputs; routes: source semantics and, if a JIT route was
     involved, JIT; threads: the recorded thread count against 1 thread and the source run) and judge it with the monitor
@@ -925,6 +1005,13 @@ def replay(ctx, rep):
         """failures that reproduce the recorded symptom (all failures if the file has no key)"""
         return [k for k in failkeys if not rkey or all(k.get(a) == b for a, b in rkey.items())]
 
+    if leg == "setter" and "packed" in c:
+        case = c02.unpack(c["packed"])
+        jit = c.get("mode") == "jit"
+        rs = run_many("harness.c02", "real_ghost", [(case, True, False)], env={"NUMBA_DISABLE_JIT": "0" if jit else "1"}, procs=1)[0]
+        outcome, _tie, fail = judge_setter(case, rs, None, ())
+        print("setter leg:", outcome, fail)
+        return outcome == "compared" and fail is None
     if leg == "threads" and "family" in c:
         fam, seed, nt = c["family"], c["seed"], int(c["threads"])
         nts = sorted({1, nt})
